@@ -260,6 +260,10 @@ pub fn profile_for(prop: &str, rng: &mut Rng, cfg: BuildCfg) -> Profile {
             w[OPK_QUERY] += 10;
             f.fork = true;
             f.closure_panic = rng.chance(1, 4);
+            if cfg.hooks && rng.chance(1, 5) {
+                f.preset = true;
+                w[OPK_PRESET] = 4;
+            }
         }
         "C19" | "DIFF" => {
             w[OPK_CLONE] += 2;
@@ -301,7 +305,7 @@ pub fn gen_sel(rng: &mut Rng, bias: &[(u8, u32)]) -> Sel {
 }
 
 pub fn gen_access(rng: &mut Rng, sh: &WorldShape, near: Option<(u8, u8)>) -> Access {
-    let kind = [AccKind::FindBorrow, AccKind::IterBorrow, AccKind::BorrowComp, AccKind::BorrowSlice, AccKind::BorrowSlice, AccKind::BorrowComp, AccKind::CloneWorld][rng.below(7) as usize];
+    let kind = [AccKind::FindBorrow, AccKind::IterBorrow, AccKind::BorrowComp, AccKind::BorrowSlice, AccKind::BorrowSlice, AccKind::BorrowComp, AccKind::CloneWorld, AccKind::FindBorrow, AccKind::IterBorrow, AccKind::BorrowComp, AccKind::BorrowSlice, AccKind::DoubleFind, AccKind::DoubleIter][rng.below(13) as usize];
     // bias towards the same archetype / same column as an enclosing access
     let (a, col) = match near {
         Some((a, c)) if rng.chance(2, 3) => (a, if rng.chance(2, 3) { c } else { rng.below(8) as u8 }),
